@@ -83,9 +83,13 @@ class ServerHooks(Hooks):
             return Obj(f"response@{I.siteid(site)}", kind="response", status=kwargs.get("status_code", Const(200)), body=args[0] if args else None)
         if d.endswith("run_in_threadpool"):
             I.effect("execute", args, site)
-            return Obj("executed_cursor", kind="cursor", cls=("cursor", "FakeSnowflakeCursor"),
-                       **{R().table: Sym("RESULT_TABLE"), R().rowcount: Sym("ROWCOUNT", typ="int"), R().last_sql: Sym("LAST_SQL", typ="str", truthy=True),
-                          R().index: Sym("FETCH_INDEX"), R().dict_flag: Const(False)})
+            from ..execmodel import make_session, sset
+            _d, _c, xc = make_session()
+            xc.name, xc.kind = "executed_cursor", "cursor"
+            for role_, v_ in (("table", Sym("RESULT_TABLE")), ("rowcount", Sym("ROWCOUNT", typ="int")), ("last_sql", Sym("LAST_SQL", typ="str", truthy=True)),
+                              ("index", Sym("FETCH_INDEX"))):
+                sset(xc, role_, v_)
+            return xc
         return NotImplemented
 
 
